@@ -241,10 +241,18 @@ PoolEmptySum == {S(<<>>)}
 PoolStrings == {T(o, COne) : o \in [1..NQ -> Letters]}
 PoolC09_2 == { T(Ops2("Y", "I"), COne), T(Ops2("I", "Y"), CI), T(Ops2("Y", "Y"), CHalf), T(Ops2("X", "Z"), CPlusI), T(Ops2("I", "I"), CInt(2)),
   T(Ops2("I", "Z"), CMinus), S(<<>>), S(<<Tm(Ops2("Z", "Y"), COne), Tm(Ops2("I", "X"), CI), Tm(Ops2("I", "I"), CInt(2))>>),
-  S(<<Tm(Ops2("Y", "I"), CNegI), Tm(Ops2("X", "Z"), CHalf)>>), S(<<Tm(Ops2("Y", "X"), COne), Tm(Ops2("Z", "I"), CMinus)>>) }
+  S(<<Tm(Ops2("Y", "I"), CNegI), Tm(Ops2("X", "Z"), CHalf)>>), S(<<Tm(Ops2("Y", "X"), COne), Tm(Ops2("Z", "I"), CMinus)>>),
+  \* sums as a caller may write them: the same string more than once, NOT adjacent, later occurrences with non-real coefficients
+  \* (the constructor does not simplify); Z-only sums of that kind (a diagonal operator)
+  S(<<Tm(Ops2("Z", "Z"), CInt(2)), Tm(Ops2("I", "Y"), CPlusI), Tm(Ops2("Z", "Z"), CI)>>),
+  S(<<Tm(Ops2("I", "Z"), COne), Tm(Ops2("Z", "Z"), CHalf), Tm(Ops2("I", "Z"), COne), Tm(Ops2("Z", "I"), CMinus), Tm(Ops2("Z", "Z"), CHalf)>>),
+  S(<<Tm(Ops2("X", "I"), CI), Tm(Ops2("I", "I"), COne), Tm(Ops2("X", "I"), CNegI), Tm(Ops2("I", "I"), CI)>>) }
 PoolC09_3 == PoolStrings \cup { S(<<>>), T(Ops3("I", "I", "Y"), CI), T(Ops3("Y", "I", "Y"), CPlusI),
   S(<<Tm(Ops3("Y", "I", "I"), COne), Tm(Ops3("I", "Z", "Y"), CI), Tm(Ops3("I", "I", "I"), CInt(2))>>),
-  S(<<Tm(Ops3("X", "I", "Y"), CHalf), Tm(Ops3("I", "Y", "I"), CMinus)>>) }
+  S(<<Tm(Ops3("X", "I", "Y"), CHalf), Tm(Ops3("I", "Y", "I"), CMinus)>>),
+  S(<<Tm(Ops3("Z", "I", "Z"), CInt(2)), Tm(Ops3("I", "Y", "I"), CPlusI), Tm(Ops3("Z", "I", "Z"), CI)>>),
+  S(<<Tm(Ops3("I", "Z", "I"), COne), Tm(Ops3("Z", "I", "Z"), CHalf), Tm(Ops3("I", "Z", "I"), COne)>>),
+  S(<<Tm(Ops3("Z", "Z", "I"), COne), Tm(Ops3("I", "Z", "Z"), COne), Tm(Ops3("I", "Z", "Z"), CI), Tm(Ops3("Z", "Z", "I"), CMinus), Tm(Ops3("I", "I", "I"), CHalf)>>) }
 
 TsJ(ts) == [i \in 1..Len(ts) |-> [ops |-> ts[i].ops, c |-> ts[i].c]]
 VJ(x) == [t |-> x.t, ts |-> TsJ(x.ts)]
